@@ -100,6 +100,7 @@ Ltac bool_cases :=
 Definition holds_lock_pc (p : pc) : bool :=
   match p with
   | LoadReg true | LoadKey true _ | Register | StoreReg _ | StoreKey _ | Rollback _ | Unlock _ => true
+  | DLoadReg _ | DLoadKey _ _ | DelReg _ | DelKey _ | DUnlock _ => true
   | _ => false
   end.
 
@@ -279,6 +280,8 @@ Definition pc_ok (s : state) (c : ca) (p : pc) : Prop :=
   | LoadKey _ r => ok s c r
   | StoreReg a | StoreKey a | Rollback a => ok s c a
   | Unlock (Some m) | Order m _ | DelReg m | DelKey m | Done (Some m) => ok_m s c m
+  | DWantLock m | DLoadReg m => ok_m s c m
+  | DLoadKey m r => ok_m s c m /\ ok s c r
   | _ => True
   end.
 
@@ -302,7 +305,7 @@ Proof.
   - destruct HS0 as [X Y]. destruct (s_key _); lia.
   - (* another thread of the same CA while the CA created an account *)
     match goal with |- context [t_pc (thr s ?u)] => rename u into t1 end.
-    clear - HT0. destruct (pcof s t1) as [| | | | | | | |[?|]| | | |[?|]]; lia.
+    clear - HT0. destruct (pcof s t1); res_cases; lia.
 Qed.
 
 (** invariants are inherited along runs *)
@@ -333,7 +336,11 @@ Qed.
 
 (* ------------------------------------------------------------------ no re-installed CA, no deletion *)
 
-Definition is_del (p : pc) : bool := match p with DelReg _ | DelKey _ => true | _ => false end.
+Definition is_del (p : pc) : bool :=
+  match p with
+  | DWantLock _ | DLoadReg _ | DLoadKey _ _ | DelReg _ | DelKey _ | DUnlock _ => true
+  | _ => false
+  end.
 
 Definition K (s : state) : Prop :=
   forall c, resets s c = 0 ->
@@ -361,13 +368,18 @@ Proof.
     (split; [exact HF|split; [try exact HD|]]); try (intros t0 Ht0; pose proof (HP t0) as HP0);
     cbn in *; upd_all; cbn in *; bool_cases; res_cases; cbn in *; try reflexivity; try (apply HP0; assumption);
     try congruence.
-  - (* Order -> DelReg is impossible: the account is live *)
+  (* the recreate path itself is impossible: no thread of this CA is in it *)
+  all: try (exfalso; match goal with
+            | Hpc : t_pc (thr ?s0 ?u) = _, Hc : t_ca (thr ?s0 ?u) = _ |- _ =>
+                let X := fresh in pose proof (HP u Hc) as X; rewrite Hpc in X; discriminate X
+            end).
+  all: try (exfalso; match goal with
+            | Hpc : t_pc (thr ?s0 ?u) = _ |- _ =>
+                let X := fresh in pose proof (HP u eq_refl) as X; rewrite Hpc in X; discriminate X
+            end).
+  - (* Order -> DWantLock is impossible: the account is live *)
     exfalso. apply live_false in Heqb0. pose proof (HT t) as X. rewrite Heqp in X.
     destruct X as [[X1 X2] _]. subst c0. lia.
-  - (* DelReg itself is impossible *)
-    pose proof (HP t eq_refl) as X. rewrite Heqp in X. discriminate.
-  - pose proof (HP0 Ht0) as X. rewrite Heqp in X. discriminate.
-  - pose proof (HP t eq_refl) as X. rewrite Heqp in X. discriminate.
 Qed.
 
 (* ------------------------------------------------------------------ persisted together *)
